@@ -491,8 +491,13 @@ def execute(sc, sim):
         # the grammar command fed with the grammar files
         st.probe("grammar_cmd_from_rcg")
         fmt2 = random.Random(sc["io_seed"]).choice(["pmcfg", "rcg"])
+        enc2 = enc
+        if sc["io_seed"] % 2 == 0:
+            # the re-emitted grammar in another encoding than the grammar files read (one that
+            # can carry every word)
+            enc2 = "utf-8" if enc != "utf-8" else "utf-16"
         argv = ["grammar", OUT, "/sim/w/out/h", "treebank", "--src-format", "rcg",
-                "--src-enc", enc, "--dest-format", fmt2, "--dest-enc", enc]
+                "--src-enc", enc, "--dest-format", fmt2, "--dest-enc", enc2]
         obs4 = sim.run(dict(base, files=keep, sessions=[{"id": "c", "ops": [["cli", argv]]}]))
         st.add_obs(obs4)
         r4 = obs4["sessions"]["c"][0]
@@ -500,7 +505,7 @@ def execute(sc, sim):
             viols.append(cm.viol("C09/grammar-cmd-from-grammar-file/failed/%s"
                                  % (r4.get("exc") or "exit"), msg=r4.get("msg"), enc=enc))
             return done(sc, st, viols)
-        sc2 = dict(sc, fmt=fmt2, opts={})
+        sc2 = dict(sc, fmt=fmt2, opts={}, enc=enc2)
         files4 = dict((OUT + p[len("/sim/w/out/h"):], d) for p, d in obs4["files"].items()
                       if p.startswith("/sim/w/out/h."))
         v = judge_files(sc2, {"files": files4, "writelog": [], "unclosed_at_return": []},
